@@ -125,6 +125,9 @@ func (m c16) Directed(c *Ctx) {
 	m.sweep(c, []string{"a", "b", "aa", "ab", "ba", "bb"})
 	m.sweep(c, []string{"a", "a_a", "a_", "_a", "a-a", "-"})
 	m.sweep(c, []string{"a", "a a", "a ", " a", " ", "\""})
+	// names that differ only in how a number inside them is written
+	m.sweep(c, []string{"v1", "v01", "v001", "v10", "v2", "1"})
+	m.sweep(c, []string{"n18446744073709551616", "n18446744073709551617", "n99999999999999999999", "n099999999999999999999", "n9", "n"})
 	// type names may be empty in a Rel value (a relationship written before its owner is known)
 	c.Name = "empty-type-names"
 	for _, ft := range []string{"", "a", "b"} {
@@ -167,7 +170,7 @@ func (m c16) Directed(c *Ctx) {
 	}}, NewRNG(2))
 }
 
-var c16Names = []string{"a", "b", "ab", "bc", "c", "a_b", "b_c", "a-b", "abc", "_", "a_", "_b", "a b", "b c", " ", "a ", " b", "a b c", "\"", "a\" \"b", "A", "B", "Ab", "aB", "AB", "é", "É"}
+var c16Names = []string{"a", "b", "ab", "bc", "c", "a_b", "b_c", "a-b", "abc", "_", "a_", "_b", "a b", "b c", " ", "a ", " b", "a b c", "\"", "a\" \"b", "A", "B", "Ab", "aB", "AB", "é", "É", "v1", "v01", "v001", "shard2", "shard10", "shard010", "n18446744073709551616", "n18446744073709551617"}
 
 func (m c16) Case(c *Ctx, r *RNG) {
 	// random Rel values
